@@ -28,7 +28,7 @@ class CHECK(Check):
     pid = "C06"
     entry = "REGFILE"
     theorems = ["C06_projection", "C06_default_preserved", "C06_written_fixed"]
-    rule = ("register file definitions with unambiguous identifiers (equal windows) x text contents: (a) contents produced by "
+    rule = ("register file definitions with unambiguous identifiers (equal or different windows) x text contents: (a) contents produced by "
             "a write of generated data (must be reproduced exactly); (b) 0-12 lines from the C04 grammar with perturbations "
             "(extra precision, odd spacing, '+' signs, right-aligned literals, trailing garbage, comments, blank lines, "
             "missing final newline). Precondition 'parsed values fit their fields' is evaluated per case by the model "
@@ -39,7 +39,7 @@ class CHECK(Check):
         n = 2500 if tier == "quick" else 60000
         made = 0
         while made < n:
-            regdefs = reglib.gen_regdefs(rng, same_window=True)
+            regdefs = reglib.gen_regdefs(rng, same_window=rng.random() < 0.5)
             if not reglib.unambiguous(regdefs):
                 continue
             made += 1
